@@ -459,8 +459,8 @@ def execute(st, ctx):
                     rfns = [make_ref_fn(rw, p).obj if p is not None else None for p in spec.fns]
                     rit = iter(tool.r(spec, rothers, rfns))
                     steps = j
-                    kept_info = {"tee_children": spec.p["n"] + (1 if spec.p.get("retee") else 0) if spec.tool == "tee" else None,
-                                 "done": set()}
+                    kept_info = {"tee_children": spec.p["n"] if spec.tool == "tee" else None, "done": set(),
+                                 "retee": spec.p.get("retee"), "split_seen": False, "half_closed": set()}
                     out.probes["tool_kept"] = 1
                 else:
                     if not kept:
@@ -489,9 +489,26 @@ def execute(st, ctx):
                     if kept_info["tee_children"] is not None:
                         # the tee driver reports the end of each child as an event of its own: once every child has ended
                         # (or was closed) the tee has released - closed - its source, the handle
+                        # (a child that was split again stays the original tee's child: it has ended once one of its halves
+                        # was told the end, or once both halves were closed)
+                        n_orig = kept_info["tee_children"]
+                        k_split = kept_info["retee"][1] if kept_info["retee"] else None
                         for ev in exp_items:
-                            if ev[0] == "t" and len(ev) == 3 and ev[2] in (("t", ("str", "'stop'")), ("t", ("str", "'closed'"))):
-                                kept_info["done"].add(ev[1])
+                            if not (ev[0] == "t" and len(ev) == 3 and type(ev[1]) is tuple and ev[1][0] == "int"):
+                                continue
+                            c = int(ev[1][1])
+                            if ev[2] == ("t", ("str", "'split'")):
+                                kept_info["split_seen"] = True
+                            elif ev[2] in (("t", ("str", "'stop'")), ("t", ("str", "'closed'"))):
+                                if kept_info["split_seen"] and c in (k_split, n_orig):
+                                    if ev[2] == ("t", ("str", "'stop'")):
+                                        kept_info["done"].add(k_split)
+                                    else:
+                                        kept_info["half_closed"].add(c)
+                                        if kept_info["half_closed"] >= {k_split, n_orig}:
+                                            kept_info["done"].add(k_split)
+                                else:
+                                    kept_info["done"].add(c)
                     if got_end is None and exp_end is None:
                         kept.append((it, rit, kept_info))
                         if kept_info["tee_children"] is not None and len(kept_info["done"]) >= kept_info["tee_children"] \
